@@ -5,6 +5,7 @@ V = os.path.dirname(os.path.dirname(os.path.abspath(__file__)))
 HARNESS = os.path.join(V, "harness")
 SPEC = os.path.join(V, "spec")
 MC = os.path.join(V, "mc")
+TLC_CP = "/opt/veriftools/tla/tla2tools.jar:/opt/veriftools/tla/CommunityModules-deps.jar"
 JAVA_OPTS = "-Xss1g -Dtlc2.tool.queue.IStateQueue=StateDeque -DTLA-Library=" + SPEC
 
 
@@ -106,7 +107,9 @@ def tlc(ctx, module, cfg=None, workers=1, env=None, timeout=1800, extra=None, si
     tag = tag or module
     meta = os.path.join(ctx.work, "meta_" + tag)
     shutil.rmtree(meta, ignore_errors=True)
-    cmd = ["timeout", str(timeout), "tlc", "-workers", str(workers), "-metadir", meta, "-cleanup", "-noGenerateSpecTE",
+    # java is called directly (same class path as the `tlc` wrapper): -Xss given in JAVA_TOOL_OPTIONS is read too late for the MAIN thread,
+    # which evaluates initial states, ASSUMEs and constant-level invariants - deep recursive operators overflowed its default stack now and then
+    cmd = ["timeout", str(timeout), "java", "-Xss1g", "-XX:+UseParallelGC", "-cp", TLC_CP, "tlc2.TLC", "-workers", str(workers), "-metadir", meta, "-cleanup", "-noGenerateSpecTE",
            "-config", (cfg or module) + ".cfg"]
     if simulate:
         cmd += ["-simulate", simulate]
@@ -168,12 +171,27 @@ PRINT_RE = re.compile(r'^<<"([A-Z-]+)", (.*)>>$')
 
 
 def printed(out, tagname):
-    """Tuples printed by PrintT(<<"TAG", ...>>) (kept on one line by the specs)."""
+    """Tuples printed by PrintT(<<"TAG", ...>>). TLC breaks a tuple that is wider than its line over several lines
+    (one element per line): those are joined back before matching."""
     res = []
-    for line in out.splitlines():
-        m = PRINT_RE.match(line.strip())
+    lines = out.splitlines()
+    i = 0
+    while i < len(lines):
+        line = lines[i].strip()
+        if line.startswith("<<") and not line.endswith(">>"):
+            j = i + 1
+            parts = [line]
+            while j < len(lines) and j - i < 400:
+                parts.append(lines[j].strip())
+                if lines[j].strip().endswith(">>"):
+                    break
+                j += 1
+            line = " ".join(parts).replace("<< ", "<<").replace(" >>", ">>")
+            i = j
+        m = PRINT_RE.match(line)
         if m and m.group(1) == tagname:
             res.append(m.group(2))
+        i += 1
     return res
 
 
@@ -194,6 +212,8 @@ def trace_check(ctx, module, trace_path, timeout=1800, tag=None, env=None, cfg=N
     ctx.transitions += g
     ctx.evaluations += n
     mism = []
+    if out.count('"MISMATCH"') != len(printed(out, "MISMATCH")):
+        raise ToolError("could not read every MISMATCH tuple printed by %s (%d printed, %d read)" % (module, out.count('"MISMATCH"'), len(printed(out, "MISMATCH"))))
     for body in printed(out, "MISMATCH"):
         parts = [p.strip().strip('"') for p in body.split(",")]
         mism.append((int(parts[0]), parts[1:]))
